@@ -2,6 +2,7 @@ package h
 
 import (
 	"context"
+	"math"
 
 	"github.com/prometheus/prometheus/model/labels"
 	"github.com/prometheus/prometheus/promql/parser"
@@ -14,6 +15,8 @@ var OpenFindings = map[string]bool{}
 //   - "tie": the query selects k series by value (topk/bottomk) and its argument has equal
 //     values at some step. The reference engine itself breaks such ties by Go map iteration
 //     order in range queries, so no choice among tied series is wrong -> inconclusive.
+//   - "knife-edge": the query contains a discontinuity (comparison, %, floor, ceil) whose inexactly
+//     computed operands sit on the discontinuity at some step: the outcome is decided by rounding.
 //   - "known:<id>": the disagreement lies in the input class of an OPEN known finding (only
 //     consulted for generated cases, never for a committed witness).
 //
@@ -23,7 +26,7 @@ func Excuse(c Case, eng, ref Result, d *Diff, o *Outcome) string {
 	if err != nil {
 		return ""
 	}
-	if d.Rule != "error-mismatch" && d.Rule != "type" {
+	if d.Rule != "type" { // a different choice among tied series can also surface as an error further up
 		tie := false
 		parser.Inspect(expr, func(n parser.Node, _ []parser.Node) error {
 			if tie {
@@ -56,7 +59,7 @@ func Excuse(c Case, eng, ref Result, d *Diff, o *Outcome) string {
 			return "tie"
 		}
 	}
-	if d.Rule != "error-mismatch" && d.Rule != "type" && knifeEdge(c, expr) {
+	if d.Rule != "type" && knifeEdge(c, expr) {
 		o.Inconclusive = "rounding at a comparison threshold: operands of a comparison agree within 1e-9"
 		o.Count("inconclusive_knife_edge", 1)
 		return "knife-edge"
@@ -175,8 +178,49 @@ func knifeEdge(c Case, expr parser.Expr) bool {
 		if hit {
 			return nil
 		}
+		if call, ok := n.(*parser.Call); ok && (call.Func.Name == "floor" || call.Func.Name == "ceil") && len(call.Args) == 1 && inexact(call.Args[0]) {
+			// a step function of an inexactly computed value that lies on a step
+			a := RunReference(context.Background(), NewStore(c.Dataset, StoreOpts{}), c.Engine, call.Args[0].String(), c.Window)
+			if a.Res.Err == nil {
+				for _, s := range a.Res.Series {
+					for _, p := range s.Points {
+						if r := math.Round(p.V); p.V == p.V && !math.IsInf(p.V, 0) && math.Abs(p.V-r) <= 1e-9*math.Max(1, math.Abs(p.V)) {
+							hit = true
+						}
+					}
+				}
+			}
+			return nil
+		}
 		b, ok := n.(*parser.BinaryExpr)
-		if !ok || !b.Op.IsComparisonOperator() {
+		if !ok {
+			return nil
+		}
+		if b.Op == parser.MOD && (inexact(b.LHS) || inexact(b.RHS)) {
+			// x % y jumps where x/y crosses an integer
+			l := RunReference(context.Background(), NewStore(c.Dataset, StoreOpts{}), c.Engine, b.LHS.String(), c.Window)
+			r := RunReference(context.Background(), NewStore(c.Dataset, StoreOpts{}), c.Engine, b.RHS.String(), c.Window)
+			if l.Res.Err == nil && r.Res.Err == nil {
+				byT := map[int64][]float64{}
+				for _, s := range l.Res.Series {
+					for _, p := range s.Points {
+						byT[p.T] = append(byT[p.T], p.V)
+					}
+				}
+				for _, s := range r.Res.Series {
+					for _, p := range s.Points {
+						for _, v := range byT[p.T] {
+							q := v / p.V
+							if q == q && !math.IsInf(q, 0) && math.Abs(q-math.Round(q)) <= 1e-9*math.Max(1, math.Abs(q)) {
+								hit = true
+							}
+						}
+					}
+				}
+			}
+			return nil
+		}
+		if !b.Op.IsComparisonOperator() {
 			return nil
 		}
 		l := RunReference(context.Background(), NewStore(c.Dataset, StoreOpts{}), c.Engine, b.LHS.String(), c.Window)
